@@ -178,6 +178,32 @@ emit(const uint8_t * p, size_t n)
 #endif
 }
 
+/* an input the library takes as `const`: after the call it must still hold what was passed in */
+static uint8_t *
+input_copy(const uint8_t * in, size_t len)
+{
+	uint8_t * c = malloc(len ? len : 1);
+	memcpy(c, in, len);
+	return (c);
+}
+
+static void
+input_check(uint8_t * copy, const uint8_t * in, size_t len)
+{
+	if (memcmp(copy, in, len) != 0)
+		printf(" input-modified");
+	free(copy);
+}
+
+/* Stateless calls (one block, crypto_aesctr_buf) are made twice on the SAME buffers in the plain
+ * builds: first with every input byte flipped (result discarded), then for real - a caller that
+ * re-uses its buffers; whatever was remembered about "this address" is stale. */
+#if defined(DRV_WIPE) || defined(DRV_SELFAIL)
+#define DECOY(in, len, out, olen, call) do { } while (0)
+#else
+#define DECOY(in, len, out, olen, call) do { drv_flip(in, len); call; drv_flip(in, len); drv_junk(out, olen); } while (0)
+#endif
+
 static uint64_t
 parse_nonce(const char * s)
 {
@@ -257,11 +283,14 @@ do_block(char ** tok, int n, int direct)
 		void * k = NULL;
 		if (!cpusupport_x86_aesni()) { printf("unsupported\n"); free(key); return; }
 		LIB("key", key, k = crypto_aes_key_expand_aesni(key, klen));
+		/* the unexpanded key is the caller's again once the expansion has returned */
+		drv_scribble_free(key, klen); key = NULL;
 		printf("ok");
 		for (i = 2; i < n; i++) {
-			size_t bl; uint8_t * in = drv_unhex(tok[i], &bl, 0); uint8_t * out = malloc(16);
+			size_t bl; uint8_t * in = drv_unhex(tok[i], &bl, 0); uint8_t * out = drv_outbuf(16);
+			uint8_t * cp = input_copy(in, bl);
 			crypto_aes_encrypt_block_aesni(in, out, k);
-			emit(out, 16); free(in); free(out);
+			emit(out, 16); input_check(cp, in, bl); free(in); free(out);
 		}
 		crypto_aes_key_free_aesni(k);
 #else
@@ -269,13 +298,18 @@ do_block(char ** tok, int n, int direct)
 #endif
 	} else {
 		struct crypto_aes_key * k = expand(key, klen);
+		/* crypto_aes.h: the key is expanded "into a structure"; the unexpanded bytes are the
+		 * caller's again once the call has returned */
+		drv_scribble_free(key, klen); key = NULL;
 		printf("ok");
 		for (i = 2; i < n; i++) {
 			size_t bl; uint8_t * in = drv_unhex(tok[i], &bl, 0);
 			if (i & 1) {	/* separate output block */
-				uint8_t * out = malloc(16);
+				uint8_t * out = drv_outbuf(16);
+				uint8_t * cp = input_copy(in, bl);
+				DECOY(in, bl, out, 16, crypto_aes_encrypt_block(in, out, k));
 				crypto_aes_encrypt_block(in, out, k);
-				emit(out, 16); free(out);
+				emit(out, 16); input_check(cp, in, bl); free(out);
 			} else {	/* in and out can overlap */
 				crypto_aes_encrypt_block(in, in, k);
 				emit(in, 16);
@@ -308,7 +342,7 @@ do_ctr(char ** tok, int n)
 			if (nkeys == MAXKEYS) { printf(" too-many-keys"); free(key); break; }
 			cur = expand(key, klen);
 			keys[nkeys++] = cur;
-			free(key);	/* the library must not depend on the caller's copy */
+			drv_scribble_free(key, klen);	/* the library must not depend on the caller's copy */
 			break;
 		}
 		case 'A':
@@ -337,9 +371,10 @@ do_ctr(char ** tok, int n)
 				crypto_aesctr_stream(stream, in, in, len);
 				emit(in, len);
 			} else {
-				uint8_t * out = malloc(len ? len : 1);
+				uint8_t * out = drv_outbuf(len);
+				uint8_t * cp = input_copy(in, len);
 				crypto_aesctr_stream(stream, in, out, len);
-				emit(out, len); free(out);
+				emit(out, len); input_check(cp, in, len); free(out);
 			}
 			free(in);
 			break;
@@ -348,9 +383,12 @@ do_ctr(char ** tok, int n)
 			char * colon = strchr(arg, ':'); size_t len; uint8_t * in; uint8_t * out;
 			if (!colon) { printf(" bad-token"); break; }
 			*colon = 0;
-			in = drv_unhex(colon + 1, &len, 0); out = malloc(len ? len : 1);
+			in = drv_unhex(colon + 1, &len, 0); out = drv_outbuf(len);
+			{ uint8_t * cp = input_copy(in, len);
+			DECOY(in, len, out, len, crypto_aesctr_buf(cur, parse_nonce(arg), in, out, len));
 			crypto_aesctr_buf(cur, parse_nonce(arg), in, out, len);
-			emit(out, len); free(in); free(out);
+			emit(out, len); input_check(cp, in, len); }
+			free(in); free(out);
 			break;
 		}
 		default:
@@ -377,8 +415,9 @@ do_big(char ** tok)
 	struct crypto_aesctr * stream = NULL;
 	uint8_t * buf = calloc(len1 ? len1 : 1, 1);
 	uint8_t * in2 = calloc(len2 ? len2 : 1, 1);
-	uint8_t * out2 = malloc(len2 ? len2 : 1);
+	uint8_t * out2 = drv_outbuf(len2);
 
+	drv_scribble_free(key, klen); key = NULL;	/* expanded above; the bytes are ours again */
 	if (buf == NULL || in2 == NULL || out2 == NULL || tail1 > len1) {
 		printf("nomem\n");
 	} else {
